@@ -178,6 +178,22 @@ func expandC14(t *testing.T, seed uint64, tier string) []*core.Plan {
 		}
 		return []*core.Plan{p}
 	}
+	if class == 3 && r.Chance(1, 3) {
+		// a publisher that never reads: it sends QoS 1 publishes and ignores the
+		// acknowledgements behind a tiny socket buffer; the broker runs with its
+		// default client settings; the witnesses must not notice
+		p.SetKnob("slow", 2)
+		p.SetKnob("defaults", 1)
+		p.Items = append(p.Items, core.Item{K: "hdeaf", P: 1, A: r.Range(2, 6)})
+		for i := 0; i < r.Range(4, 14); i++ {
+			p.Items = append(p.Items, wpub())
+		}
+		p.Items = append(p.Items, core.Item{K: "hgone", P: 1, A: r.Intn(2)})
+		for i := 0; i < 3; i++ {
+			p.Items = append(p.Items, wpub())
+		}
+		return []*core.Plan{p}
+	}
 	for i := 0; i < n; i++ {
 		switch {
 		case class == 2 && i == n/2:
@@ -238,6 +254,10 @@ func runC14(t *testing.T, p *core.Plan) *core.Result {
 	}
 	class := p.Knob("class", 0)
 	slow := p.Knob("slow", 0) == 1
+	if p.Knob("defaults", 0) == 1 {
+		// leave the client knobs at zero: broker.Client applies its defaults
+		cfg.ParPublishes, cfg.ParSubscribes, cfg.Inflight, cfg.TokenTimeout, cfg.MaxKeepAlive = 0, 0, 0, 0, 0
+	}
 	sites := []string{"", "Authenticate", "Setup", "Restore", "Subscribe", "Unsubscribe", "Publish", "Dequeue", "Terminate"}
 	var w *World
 	ptxt := core.Bubble(t, p.Seed, p.Yield, func() {
@@ -317,6 +337,25 @@ func runC14(t *testing.T, p *core.Plan) *core.Result {
 				w.Settle()
 				pr.Stalled = true // from now on it reads nothing
 				res.Count("slow_consumers", 1)
+			case "hdeaf":
+				pr := w.NewPeer("deaf")
+				pr.AckMode = 2
+				pr.Link.B2A.Cap = 3 // less than one CONNACK: nothing the broker writes gets through any more
+				hostile[it.P] = pr
+				hostiles = append(hostiles, pr)
+				c := packet.NewConnect()
+				c.ClientID, c.CleanSession, c.KeepAlive = "deaf", true, 0
+				pr.Send(c)
+				w.Settle()
+				pr.Stalled = true
+				for k := 0; k < it.A; k++ {
+					pb := packet.NewPublish()
+					pb.ID = pr.NextID()
+					pb.Message = packet.Message{Topic: "v/x", QOS: 1, Payload: MsgPayload(600000+k, 0)}
+					pr.Send(pb)
+				}
+				w.Settle()
+				res.Count("deaf_publishers", 1)
 			case "hgone":
 				if pr := hostile[it.P]; pr != nil {
 					stuck := 0
